@@ -504,6 +504,7 @@ def explore_entry(eng, entry, inv, tier, t0, prefix=(), limit=None):
     from .contract import explore
     timeout = 10000 if tier == "quick" else 60000
     limit = limit or UNIT_PATHS
+    unk0 = getattr(eng, "_unknown_checks", 0)
     work = [list(prefix)]
     leftover = []
     violated_all = {}
@@ -568,7 +569,8 @@ def explore_entry(eng, entry, inv, tier, t0, prefix=(), limit=None):
             break
     return {"entry": entry.name, "leftover": leftover, "violated": {c: sorted(ks) for c, ks in violated_all.items()},
             "obligations": list(obs.values()), "paths": npaths, "wall": round(time.time() - t0, 2),
-            "oos": sorted(set(oos))[:5], "crash": None, "cuts": sorted(cuts), "idx": eng.entries.index(entry)}
+            "oos": sorted(set(oos))[:5], "crash": None, "cuts": sorted(cuts), "idx": eng.entries.index(entry),
+            "inv_checks_abstracted": getattr(eng, "_unknown_checks", 0) - unk0}
 
 
 def cti_of(eng, ctx, model, entry):
@@ -699,7 +701,8 @@ def run_engine(factory_mod, factory_name, tier="quick", jobs=16, max_rounds=40, 
                 removed += before - len(inv[cut])
         npaths = sum(r["paths"] for r in results)
         log(f"[{eng.name}] round {rounds}: paths={npaths} removed={removed} entry_clauses={len(inv['entry'])} "
-            f"cuts={len(inv)} ({time.time()-t1:.1f}s)")
+            f"cuts={len(inv)} abstracted_inv_checks={sum(r.get('inv_checks_abstracted', 0) for r in results)} "
+            f"({time.time()-t1:.1f}s)")
         if getattr(eng, "cache_file", None) and (infer or os.environ.get("VERIF_SAVE_PARTIAL")):
             save_inv(eng.cache_file + ".partial", inv, {"rounds": rounds, "inductive": removed == 0})
         if os.environ.get("VERIF_DEBUG_ENTRIES"):
